@@ -85,6 +85,11 @@ type Action struct {
 	Keys    *[]string     `json:"keys,omitempty"`
 	Gap     int64         `json:"gap,omitempty"`
 	Rate    *int64        `json:"rate,omitempty"`
+	// unusual-but-valid spellings of an input: "f" = the coin is in the foreign denomination; Upper = the provider's
+	// address is written in upper-case bech32
+	Denom  string `json:"denom,omitempty"`
+	PDenom string `json:"pdenom,omitempty"`
+	Upper  bool   `json:"upper,omitempty"`
 }
 
 func (a Action) Key() string {
@@ -93,6 +98,13 @@ func (a Action) Key() string {
 }
 
 func coin(v int64) sdk.Coin { return sdk.NewInt64Coin(Denom, v) }
+
+func coinD(v int64, d string) sdk.Coin {
+	if d == "f" {
+		return sdk.NewInt64Coin(ForeignDenom, v)
+	}
+	return coin(v)
+}
 
 func i64(p *int64) int64 {
 	if p == nil {
@@ -176,7 +188,7 @@ func (w *World) Msg(a Action) (sdk.Msg, string, error) {
 		if err != nil {
 			return nil, "", err
 		}
-		return &dtypes.MsgCreateDeployment{ID: did, Groups: gs, Version: version(i64(a.Version)), Deposit: coin(i64(a.Deposit))},
+		return &dtypes.MsgCreateDeployment{ID: did, Groups: gs, Version: version(i64(a.Version)), Deposit: coinD(i64(a.Deposit), a.Denom)},
 			"/akash.deployment.v1beta1.Msg/CreateDeployment", nil
 	case "SendToEscrow":
 		from, err := w.Addr(a.T)
@@ -187,7 +199,7 @@ func (w *World) Msg(a Action) (sdk.Msg, string, error) {
 			Amount: sdk.NewCoins(coin(i64(a.Amount)))}, "/cosmos.bank.v1beta1.Msg/Send", nil
 	case "DepositDeployment":
 		did, err := w.did(a)
-		return &dtypes.MsgDepositDeployment{ID: did, Amount: coin(i64(a.Amount))}, "/akash.deployment.v1beta1.Msg/DepositDeployment", err
+		return &dtypes.MsgDepositDeployment{ID: did, Amount: coinD(i64(a.Amount), a.Denom)}, "/akash.deployment.v1beta1.Msg/DepositDeployment", err
 	case "UpdateDeployment":
 		did, err := w.did(a)
 		return &dtypes.MsgUpdateDeployment{ID: did, Version: version(i64(a.Version))}, "/akash.deployment.v1beta1.Msg/UpdateDeployment", err
@@ -205,7 +217,11 @@ func (w *World) Msg(a Action) (sdk.Msg, string, error) {
 		return &dtypes.MsgStartGroup{ID: dtypes.MakeGroupID(did, uint32(a.G))}, "/akash.deployment.v1beta1.Msg/StartGroup", err
 	case "CreateBid":
 		b, err := w.bidID(a)
-		return &mtypes.MsgCreateBid{Order: b.OrderID(), Provider: b.Provider, Price: coin(i64(a.Price)), Deposit: coin(i64(a.Deposit))},
+		prov := b.Provider
+		if a.Upper {
+			prov = strings.ToUpper(prov)
+		}
+		return &mtypes.MsgCreateBid{Order: b.OrderID(), Provider: prov, Price: coinD(i64(a.Price), a.PDenom), Deposit: coinD(i64(a.Deposit), a.Denom)},
 			"/akash.market.v1beta1.Msg/CreateBid", err
 	case "CloseBid":
 		b, err := w.bidID(a)
